@@ -106,6 +106,9 @@ func (e *Ethernet) UnmarshalBinary(data []byte) error {
 		}
 		n += int(e.VLANID.Len())
 
+		if len(data) < n+2 {
+			return errors.New("The []byte is too short to unmarshal a full tagged Ethernet message.")
+		}
 		e.Ethertype = binary.BigEndian.Uint16(data[n:])
 	} else {
 		e.VLANID = *new(VLAN)
